@@ -64,6 +64,19 @@ def speciesAttrs (comp : Option String) (species : List (String × Option Rat)) 
   | none => []
   | some c => species.map fun kv => ⟨kv.1, c, speciesHosu, speciesInitAmount⟩
 
+/-- `exportModel` with any initial set of names the species references have to avoid -/
+def exportModelFrom (taken0 : List String) (m : PyModel) : Except XErr SDoc := do
+  let d ← foldE exportParam SDoc.empty m.params
+  let d ← foldE (fun d kv => exportRule d kv.1 kv.2) d m.derived
+  let d ← foldE exportVar d m.vars
+  let (_, d) ← foldE exportReaction (taken0, d) m.rxns
+  pure d
+
+/-- `taken` at the head of `_create_sbml_reactions`: `set(model.ids)`, since F-C08-19 joined with the ids of the
+    compartments already written to the document -/
+def refTaken (m : PyModel) (cs : List (String × Rat)) : List String :=
+  if refAvoidsCompartments then m.names ++ cs.map (·.1) else m.names
+
 /-- `_model_to_sbml` with its `compartments` argument: the same four loops as `exportModel`, the guard of
     `_create_sbml_variables` where the real code has it -/
 def exportModelC (m : PyModel) (cs : List (String × Rat)) : Except XErr SDocC := do
@@ -71,7 +84,7 @@ def exportModelC (m : PyModel) (cs : List (String × Rat)) : Except XErr SDocC :
   let d ← foldE (fun d kv => exportRule d kv.1 kv.2) d m.derived
   let comp ← speciesCompartment cs m.vars
   let d ← foldE exportVar d m.vars
-  let (_, d) ← foldE exportReaction (m.names, d) m.rxns
+  let (_, d) ← foldE exportReaction (refTaken m cs, d) m.rxns
   pure ⟨d, cs, speciesAttrs comp d.species⟩
 
 /-- `write(model, file, compartments=…)` up to the serialisation -/
